@@ -367,6 +367,43 @@ static uint64_t xr_apply(void *obj, const step_t *st)
 	int rc;
 	if (st->op % 5 == 4)
 		idx = st->b % 50;
+	/* the cursor API: position on a set and read one pair / go on from wherever the cursor is (also in a copy that was taken
+	   in the middle of a set, or between a key and its value) / read a key and leave its value unread */
+	if (st->op % 16 >= 10) {
+		sqfs_xattr_entry_t *key = NULL;
+		sqfs_xattr_value_t *val = NULL;
+		sqfs_xattr_id_t desc;
+		int what = st->op % 16;
+		if (what <= 11) {
+			rc = sqfs_xattr_reader_get_desc(x, idx, &desc);
+			h = Hu(h, (uint64_t)(int64_t)rc);
+			if (rc)
+				return h;
+			h = Hu(h, desc.xattr);
+			h = Hu(h, desc.count);
+			h = Hu(h, desc.size);
+			rc = sqfs_xattr_reader_seek_kv(x, &desc);
+			h = Hu(h, (uint64_t)(int64_t)rc);
+			if (rc || desc.count == 0)
+				return h;
+		}
+		rc = sqfs_xattr_reader_read_key(x, &key);
+		h = Hu(h, (uint64_t)(int64_t)rc);
+		if (rc)
+			return h;
+		h = Hu(h, key->type);
+		h = H(h, key->key, key->size);
+		if (what != 15 && what != 11) {
+			rc = sqfs_xattr_reader_read_value(x, key, &val);
+			h = Hu(h, (uint64_t)(int64_t)rc);
+			if (rc == 0) {
+				h = H(h, val->value, val->size);
+				sqfs_free(val);
+			}
+		}
+		sqfs_free(key);
+		return h;
+	}
 	rc = sqfs_xattr_reader_read_all(x, idx, &list);
 	h = Hu(h, (uint64_t)(int64_t)rc);
 	for (it = list; rc == 0 && it; it = it->next) {
